@@ -137,8 +137,10 @@ def tree_facts(ctx):
     an error (proposed_fixes/C08-F28.patch) or cut; whether a negative size is refused (C08-F29.patch)."""
     rc, out, outdir = ctx.go_test(PKG, OVERLAY, "^TestVerifC08Facts$", timeout=1200)
     f = {}
+    import os
+    if rc == 0 and not os.path.exists(os.path.join(outdir, "facts.txt")):
+        rc, out = 1, "TestVerifC08Facts passed but wrote no facts.txt\n" + out
     if rc == 0:
-        import os
         for line in open(os.path.join(outdir, "facts.txt")):
             k, _, v = line.strip().partition("=")
             if k:
